@@ -49,7 +49,8 @@ def stream(ctx, grammars, sr, hashseed):
     # every third grammar is built over integer terminals 0..nT-1 (0 is falsy, unlike a one-letter string)
     jobs = [{"g": g, "sr": sr, "tnames": ("int" if k % 3 == 2 else "str"),
              "queries": [{"op": "prefix_weight", "xs": ps, "timeout": 40}, {"op": "derivatives_treesum", "xs": ps, "timeout": 40},
-                         {"op": "derivative_call", "a": a, "xs": ys, "timeout": 40}, {"op": "derivative_call", "a": a, "then": [b], "xs": zs, "timeout": 40}]}
+                         {"op": "derivative_call", "a": a, "xs": ys, "timeout": 40}, {"op": "derivative_call", "a": a, "then": [b], "xs": zs, "timeout": 40},
+                         {"op": "derivative_call", "a_raw": M.ntname(g["rules"][0][1]), "xs": zs, "timeout": 40}]}
             for k, (g, pid, lid, ps, a, ys, b, zs) in enumerate(plan)]
     res = run_jobs(jobs, hashseed=hashseed)
     for k, ((g, pid, lid, ps, a, ys, b, zs), r) in enumerate(zip(plan, res)):
@@ -79,6 +80,14 @@ def stream(ctx, grammars, sr, hashseed):
                 ctx.count_case((sr, json.dumps(g), "derivative", a, tuple(y)), nontrivial=bool(ref))
                 if not close_enough(v, ref):
                     viol(ctx, f"derivative:{sr}", f"derivative({a})({y}) = {v}; the grammar gives {[a] + y} the weight {ref}", {"kind": "prefix", "op": "derivative_call", "sr": sr, "tnames": tn, "grammar": g, "a": a, "xs": y, "observed": str(v), "expected": str(ref)})
+        q = r[4]   # the derivative with respect to a token that is not in the vocabulary (it is spelled like a nonterminal): zero everywhere
+        if "ok" in q:
+            for z, enc in zip(zs, q["ok"]):
+                v = dec_val(enc)
+                ctx.cov["oracle_cases"] += 1
+                if not close_enough(v, Fraction(0)) and not (v is False):
+                    viol(ctx, f"derivative-foreign:{sr}", f"derivative({M.ntname(g['rules'][0][1])!r})({z}) = {v} although {M.ntname(g['rules'][0][1])!r} is not a terminal of the grammar (no string begins with it)",
+                         {"kind": "prefix", "op": "derivative_call", "sr": sr, "tnames": tn, "grammar": g, "a_raw": M.ntname(g["rules"][0][1]), "xs": z, "observed": str(v), "expected": "0"})
         q = r[3]
         if "err" in q:
             viol(ctx, f"derivative2:error:{q['err'][:30]}", f"derivative({a}).derivative({b}) raised {q['err']}", {"kind": "prefix-error", "op": "derivative_call", "sr": sr, "tnames": tn, "grammar": g, "a": a, "then": [b], "error": q["err"]})
@@ -164,8 +173,10 @@ def replay(obj):
     g, sr, op = obj["grammar"], obj["sr"], obj["op"]
     q = {"op": op, "xs": [obj.get("xs", [])]}
     if op == "derivative_call":
-        q["a"] = obj["a"]
+        q["a"] = obj.get("a", 0)
         q["then"] = obj.get("then", [])
+        if "a_raw" in obj:
+            q["a_raw"] = obj["a_raw"]
     r = run_jobs([{"g": g, "sr": sr, "tnames": obj.get("tnames", "str"), "queries": [q]}])[0][0]
     print("grammar:", json.dumps(g))
     print(q, "->", r, "expected:", obj.get("expected"))
